@@ -118,6 +118,8 @@ def tensor(vk, cfg):
         trspec = ref_einsum(sub("ii->", batch), A)
         r = frame(vk, "trace", [A], lambda: M.trace(A))
         vk.ensures_eq("trace", r, trspec)
+        if batch:  # out= : "the calculation is done into this array" (np.trace needs an array buffer: trailing axes)
+            out_variants(vk, "trace(out)", A.shape[2:], lambda out: M.trace(A, out=out), trspec, [A])
         devspec = A - trspec / d * eye_like(vk, d, batch)
         out_variants(vk, "dev", A.shape, lambda out: M.dev(A, out=out), devspec, [A])
         detspec = det_ref(A)
@@ -178,6 +180,10 @@ def tensor(vk, cfg):
         variants("inv/sym=True", S, sym=True)
         vk.ensures_eq("cof", frame(vk, "cof", [A], lambda: M.cof(A)), ref_einsum(sub("ij->ji", batch), adj_ref(A)))
         vk.ensures_eq("cof/sym=True", M.cof(S, sym=True), ref_einsum(sub("ij->ji", batch), adj_ref(S)))
+        # out= : "the calculation is done into this array": same values for a fresh (garbage-filled) and a reused buffer, the
+        # result lives in the buffer's memory
+        out_variants(vk, "cof(out)", A.shape, lambda out: M.cof(A, out=out), ref_einsum(sub("ij->ji", batch), adj_ref(A)), [A])
+        out_variants(vk, "cof(out)/sym=True", S.shape, lambda out: M.cof(S, sym=True, out=out), ref_einsum(sub("ij->ji", batch), adj_ref(S)), [S])
         vk.canary("inv==adj", M.inv(A), adj_ref(A) + 0 * A)
     elif g == "products":
         A = T(vk, "A", (d, d), batch)
@@ -226,6 +232,17 @@ def tensor(vk, cfg):
                 vk.ensures_eq(f"ddot/mode={mode[0]}{mode[1]}/parallel={par}", frame(vk, f"ddot{mode}", [a, b], lambda: M.ddot(a, b, mode=mode, parallel=par)), ref_einsum(sub(s, batch), a, b))
         vk.ensures_eq("dddot", M.dddot(ops[3], ops2[3]), ref_einsum(sub("ijk,ijk->", batch), ops[3], ops2[3]))
         vk.ensures_eq("dddot/parallel=True", M.dddot(ops[3], ops2[3], parallel=True), ref_einsum(sub("ijk,ijk->", batch), ops[3], ops2[3]))
+        # mode: (3, 3) is the only documented mode; every other mode tuple is rejected (TypeError), never answered with some
+        # other contraction; the mode given explicitly (also as the equal tuple built at run time) is the default
+        vk.ensures_eq("dddot/mode=(3,3) given", M.dddot(ops[3], ops2[3], mode=tuple([3, 3])), ref_einsum(sub("ijk,ijk->", batch), ops[3], ops2[3]))
+        if vk.sym:
+            for bad in ((3, 2), (2, 3), (3,), (4, 4)):
+                try:
+                    got = M.dddot(ops[3], ops2[3], mode=bad)
+                    raised = False
+                except TypeError:
+                    raised = True
+                vk.ensures_true(f"dddot/mode={bad} is rejected (TypeError)", raised, "" if raised else f"returned an array of shape {np.shape(got)}", backend="exec")
         vk.canary("ddot24==ddot42", M.ddot(ops[2], ops2[4], mode=(2, 4)), ref_einsum(sub("ijkl,kl->ij", batch), ops2[4], ops[2]))
     elif g == "broadcast":
         # a size-one batch axis broadcasts against a full one
@@ -250,7 +267,7 @@ def tensor(vk, cfg):
         S = (A + ref_einsum(sub("ij->ji", batch), A)) / 2
         seen = {}
 
-        def backend_pairs(a):
+        def backend_pairs(a, UPLO="L"):
             a = np.asarray(a)
             vk.ensures_eq("backend-argument-layout", a, ref_einsum("ijyz->yzij", seen["arg"]))
             w = ring.symarray("lam", batch + (d,))
@@ -267,6 +284,37 @@ def tensor(vk, cfg):
             w, V = M.eigh(S)
             vk.ensures_eq("eigh/eigenvalues-axis-order", w, ref_einsum("yza->ayz", seen["w"]))
             vk.ensures_eq("eigh/eigenvectors-axis-order", V, ref_einsum("yzia->iayz", seen["V"]))
+            # UPLO (documented: "whether the calculation is done with the lower triangular part of `a` ('L', default) or
+            # the upper triangular part ('U')"), against the backend contract  eigh(a, UPLO) = eigenpairs of the symmetric
+            # matrix whose UPLO-triangle is that of a:  the matrix the backend effectively decomposes must be the symmetric
+            # completion of the requested triangle of the argument
+            def effective(arg, uplo):
+                e = np.empty(arg.shape, dtype=object)
+                for i in range(d):
+                    for j in range(d):
+                        lo, hi = max(i, j), min(i, j)
+                        e[..., i, j] = arg[..., lo, hi] if uplo == "L" else arg[..., hi, lo]
+                return e
+
+            def backend_uplo(a, UPLO="L"):
+                seen["eff"] = effective(np.asarray(a), UPLO)
+                w = ring.symarray("lamU", batch + (d,))
+                V = ring.symarray("vecU", batch + (d, d))
+                seen["w"], seen["V"] = w, V
+                return w, V
+
+            symnp.LINALG_STUBS.update(eigh=backend_uplo)
+            wU, VU = M.eigh(S, UPLO="U")
+            vk.ensures_eq("eigh(UPLO='U')/symmetric argument: the matrix decomposed is the argument (either triangle)", seen["eff"], ref_einsum("ijyz->yzij", S))
+            vk.ensures_eq("eigh(UPLO='U')/eigenvalues-axis-order", wU, ref_einsum("yza->ayz", seen["w"]))
+            vk.ensures_eq("eigh(UPLO='U')/eigenvectors-axis-order", VU, ref_einsum("yzia->iayz", seen["V"]))
+            M.eigh(A, UPLO="L")
+            vk.ensures_eq("eigh(UPLO='L')/general argument: the lower triangle is decomposed", seen["eff"], effective(ref_einsum("ijyz->yzij", A), "L"))
+            M.eigh(A, UPLO="U")
+            vk.ensures_eq("eigh(UPLO='U')/general argument: the upper triangle is decomposed", seen["eff"], effective(ref_einsum("ijyz->yzij", A), "U"))
+            if d > 1:
+                vk.canary("eigh(UPLO='L') decomposes the upper triangle", (M.eigh(A, UPLO="L"), seen["eff"])[1], effective(ref_einsum("ijyz->yzij", A), "U"))
+            symnp.LINALG_STUBS.update(eigh=backend_pairs)
             seen["arg"] = A
             w2, V2 = M.eig(A, eig=backend_pairs)
             vk.ensures_eq("eig/eigenvalues-axis-order", w2, ref_einsum("yza->ayz", seen["w"]))
